@@ -348,7 +348,11 @@ pub fn feature_doc(rng: &mut Rng, many_patterns: bool, allow_random: bool) -> St
 
 /// Documents which must fail, with the reason class.
 pub fn failing_doc(rng: &mut Rng) -> (String, &'static str) {
-    match rng.below(9) {
+    match rng.below(12) {
+        // late failures: the document evaluates, the root element cannot be finalised
+        9 => ("<!-- c --><svg width=\"wide\"><rect wh=\"5\" text=\"x\"/></svg>".to_string(), "late-root-width"),
+        10 => ("<svg height=\"1-2cm\"><rect wh=\"5\"/><circle cxy=\"^@br\" r=\"2\"/></svg>".to_string(), "late-root-height"),
+        11 => ("<svg width=\"{{1+}}\"><rect wh=\"5\"/></svg>".to_string(), "late-root-expr"),
         0 => ("<svg><rect xy=\"#nope|h\" wh=\"5\"/></svg>".to_string(), "unknown-ref"),
         1 => (
             "<svg><rect id=\"a\" xy=\"#b|h\" wh=\"5\"/><rect id=\"b\" xy=\"#a|h\" wh=\"5\"/></svg>".to_string(),
